@@ -39,6 +39,26 @@ class Ctx:
         h = self.notes.setdefault(name, {})
         h[str(key)] = h.get(str(key), 0) + 1
 
+def _watchdog(f, secs):
+    """run one batch under an alarm: the teardown of a multiprocessing.Pool whose worker raised occasionally deadlocks inside CPython (seen with the
+    UNCHANGED library too, about once in a dozen runs of such a call); a batch that exceeds `secs` is abandoned, its child processes are killed and it is
+    run once more; a second timeout is an infrastructure failure (exit 2), never a verdict"""
+    import signal, multiprocessing
+    def handler(signum, frame):
+        raise TimeoutError('batch watchdog (%d s)' % secs)
+    for attempt in (1, 2):
+        old = signal.signal(signal.SIGALRM, handler); signal.alarm(secs)
+        try:
+            return f()
+        except TimeoutError:
+            for ch in multiprocessing.active_children():
+                try: ch.kill()
+                except Exception: pass
+            if attempt == 2: raise
+            print('note: a batch exceeded %d s and was restarted (hung worker pool)' % secs, file=sys.stderr)
+        finally:
+            signal.alarm(0); signal.signal(signal.SIGALRM, old)
+
 def load_findings():
     p = os.path.join(VERIF, 'known_findings.json')
     try:
@@ -114,7 +134,7 @@ def main(argv=None):
         out = []
         B = getattr(mod, 'BATCH', 200)
         for i in range(0, len(cases), B):
-            rs = mod.evaluate(ctx, cases[i:i + B])
+            rs = _watchdog(lambda: mod.evaluate(ctx, cases[i:i + B]), int(os.environ.get('VERIF_BATCH_TIMEOUT', '900')))
             n_eval += len(rs)
             out.extend(rs)
         return out
